@@ -132,6 +132,17 @@ func TestVerifC20(t *testing.T) {
 			}
 		}
 	}
+	{
+		// digit runs beyond 64 bits through the sort itself
+		long := []string{"c5", "c18446744073709551616", "c18446744073709551617", "c36893488147419103232", "c9", "c100000000000000000000000", "c018446744073709551616", "c1x", "c10", "c2"}
+		Strings(long)
+		for i := 0; i+1 < len(long); i++ {
+			cases++
+			if less(long[i+1], long[i]) || verifC20Ref(long[i], long[i+1]) > 0 {
+				fail("Strings leaves %q before %q", long[i], long[i+1])
+			}
+		}
+	}
 	n := len(ss)
 	lt := make([][]bool, n)
 	for i := range ss {
